@@ -1,5 +1,6 @@
 import MwVerif.Lemmas.Templ.Fuel
 import MwVerif.Gen.Magics
+import MwVerif.Lemmas.Braces.RoundTrip
 /-!
 # C03 — template expansion always terminates with a string
 
@@ -77,3 +78,30 @@ directives (`wraparound=False`): cython reports none for the working tree's sour
 theorem c03_no_undefined_indexing : Gen.Magics.undefinedIndexing = [] := by decide
 
 end MwVerif.Templ
+
+namespace MwVerif.Braces
+
+/-- **C03 (brace matching never raises and loses nothing).**  For every token list as the tokenizer
+produces it (runs of `{` / `}` of length ≥ 2; any order, any nesting, any imbalance, link brackets,
+noinclude sections), the brace matcher of `templ/parser.py` returns — `_consume_closing_braces`
+never raises `ValueError("expected closing braces")` — and the result printed back (templates as
+`{{…}}`, parameters as `{{{…}}}`, everything else as it stands) is the input without the skipped
+noinclude tokens: what cannot be paired degrades to text, nothing is dropped or duplicated. -/
+theorem c03_brace_matching_total_and_lossless (ts : List Tok) (h : ∀ t ∈ ts, t.ok = true) :
+    ∃ r, parse ts = some r ∧ printL r = printToks ts := by
+  obtain ⟨r, hr, hp⟩ := run_spec (2 * size ts + 0) [] [] ts (Nat.le_refl _) h (by simp)
+  exact ⟨r, hr, by simpa [printL, printStack] using hp⟩
+
+theorem c03_brace_matching_never_raises (ts : List Tok) (h : ∀ t ∈ ts, t.ok = true) : parse ts ≠ none := by
+  obtain ⟨r, hr, _⟩ := c03_brace_matching_total_and_lossless ts h
+  rw [hr]; simp
+
+/-- the hypothesis is what makes it true: a closing run of length one (which the tokenizer never
+produces) does raise. -/
+example : parse [.bopen 2, .bclose 1] = none := by
+  unfold parse; rw [run, run]; rfl
+
+/-- `{{{{{a}}}` `}}`: a parameter inside a template, from five opening braces closed by 3 + 2. -/
+example : (∀ t ∈ [Tok.bopen 5, .txt ['a'], .bclose 3, .bclose 2], t.ok = true) := by decide
+
+end MwVerif.Braces
